@@ -320,7 +320,10 @@ pub fn c07_continuation(cfg: &Arc<W4Cfg>, acts: &[Act]) -> Result<u32, (String, 
             let sig = e.died_of.as_ref().map(|d| d.split(' ').next().unwrap().to_string()).unwrap_or_default();
             return Err((format!("c07.continuation_died.{sig}"), format!("fault-free continuation ended after {steps} steps: {why}")));
         }
-        let all = (0..n).all(|i| e.rig.periph(i).is_running() && e.dx_events[i] > start_dx[i]);
+        // "back in cyclic data exchange" is judged on BOTH sides: the master reports running + DataExchanged,
+        // and the (conforming) slave is in its data-exchange state — not still waiting for parameters while
+        // the master takes its refusals for confirmations
+        let all = (0..n).all(|i| e.rig.periph(i).is_running() && e.dx_events[i] > start_dx[i] && e.slaves[i].state == crate::dprig::SlaveState::DataExch);
         if all && ok_at.is_none() {
             ok_at = Some(steps);
         }
@@ -332,7 +335,7 @@ pub fn c07_continuation(cfg: &Arc<W4Cfg>, acts: &[Act]) -> Result<u32, (String, 
                 return Ok(s);
             }
         } else if steps > budget {
-            let st: Vec<String> = (0..n).map(|i| format!("#{}: live={} running={}", cfg.rig.periphs[i].addr, e.rig.periph(i).is_live(), e.rig.periph(i).is_running())).collect();
+            let st: Vec<String> = (0..n).map(|i| format!("#{}: live={} running={} slave state {:?}", cfg.rig.periphs[i].addr, e.rig.periph(i).is_live(), e.rig.periph(i).is_running(), e.slaves[i].state)).collect();
             return Err(("c07.healthy_peripheral_not_recovered".into(), format!("after {budget} fault-free master requests: {}", st.join(", "))));
         }
     }
@@ -394,6 +397,12 @@ pub fn c07_silence(cfg: &Arc<W4Cfg>, acts: &[Act]) -> Result<bool, (String, Stri
 pub fn run_c07(tier: Tier) -> ! {
     let mut plans = vec![];
     let mal1: Vec<u8> = tier.pick(vec![0, 1, 2, 5, 8, 12, 16, 17], ALL_MALFORMED.to_vec());
+    // an output-only peripheral (no inputs: it confirms Data_Exchange with SC) and an input-only one
+    for (i, q) in [(0usize, 2usize), (3, 0)] {
+        let mal: Vec<u8> = vec![0, 1, 2, 8, 12, 16];
+        let cfg = base_cfg(vec![PeriphCfg::simple(11, i, q)], Mon::C07, std_acts(1, &mal, true));
+        plans.push(Plan { label: format!("1p in{i} out{q}"), cfg, depth: tier.pick(8, 14), max_states: tier.pick(150_000, 3_000_000), secs: tier.pick(60.0, 2400.0) });
+    }
     for retry in tier.pick(vec![1u8], vec![1, 2, 3]) {
         let mut cfg = base_cfg(vec![PeriphCfg::simple(9, 2, 1)], Mon::C07, std_acts(1, &mal1, true));
         cfg.rig.max_retry = retry;
